@@ -527,6 +527,7 @@ Theorem backend_reached_only_if d q a now bv :
     Hostmux.route_of re_match (map up_hm (dp_ups d)) (rq_host q) = Hostmux.RUp (up_hm u) /\
     bk_target bv = Hostmux.target re_replace (rq_host q) (up_hm u) /\
     bk_host bv = (if Hostmux.u_preserve (up_hm u) then Hostmux.preserved_host (rq_host q) (bk_target bv) else bk_target bv) /\
+    bk_req bv = received_request re_replace d u q (bk_handler bv) /\
     (* not the health check, not a plain-http request under secure cookies, a clean path, one of two routes *)
     rq_path q <> Hostmux.ping_path /\ redirected d q = false /\ ReqUri.clean_path (rq_path q) = rq_path q /\
     (route_of_path (rq_path q) = RtProxy \/ route_of_path (rq_path q) = RtFavicon) /\
@@ -555,19 +556,20 @@ Proof.
   assert (Hfields : forall pre id, bv = backend_of d u q pre id ->
      bk_target bv = Hostmux.target re_replace (rq_host q) (up_hm u) /\
      bk_host bv = (if Hostmux.u_preserve (up_hm u) then Hostmux.preserved_host (rq_host q) (bk_target bv) else bk_target bv) /\
+     bk_req bv = received_request re_replace d u q (bk_handler bv) /\
      (forall k, In k ReqHeaders.identity_keys ->
        Signer.hvals k (Signer.r_headers (bk_req bv)) =
        if mem_str k (Signer.hop_keys (to_signer_headers (bk_handler bv))) then [] else ReqHeaders.h_get k (bk_handler bv)) /\
      (forall c, In c (ReqHeaders.read_cookies (Signer.hvals Signer.cookie_h (Signer.r_headers (bk_req bv)))) ->
        ReqHeaders.c_name c <> dp_cookie_name d)).
-  { intros pre id ->. split; [reflexivity|]. split; [reflexivity|]. split.
+  { intros pre id ->. split; [reflexivity|]. split; [reflexivity|]. split; [reflexivity|]. split.
     - intros k Hk. cbn [ProxyAll.backend_of bk_req bk_handler].
       apply (received_header re_replace d u q _ k (identity_not_written k Hk)).
     - apply backend_cookie_stripped. }
   destruct Hb as [[Hrt [id [Hout ->]]] | [Hrt [Hauth [id [Hout ->]]]]].
   - (* Proxy route *)
-    destruct (Hfields None id eq_refl) as [F1 [F2 [F3 F4]]].
-    split; [exact F1|]. split; [exact F2|].
+    destruct (Hfields None id eq_refl) as [F1 [F2 [F5 [F3 F4]]]].
+    split; [exact F1|]. split; [exact F2|]. split; [exact F5|].
     split; [exact Hp|]. split; [exact Hred|]. split; [exact Hcl|]. split; [left; exact Hrt|].
     split; [|split; [exact F3 | exact F4]].
     apply ProxyCore_proofs.proxy_forward_sound in Hout. rewrite whitelisted_is_skip_hit in Hout.
@@ -577,8 +579,8 @@ Proof.
       split; [intros _; apply handler_identity_some | intros Hw'; congruence].
   - (* Favicon route: Authenticate, then Proxy *)
     set (o := ProxyCore.authenticate lower now (pc_cfg d u) (pc_pol u) (rq_host q) (session_cookie d q) (an_auth a)) in *.
-    destruct (Hfields (ProxyCore.ao_session o) id eq_refl) as [F1 [F2 [F3 F4]]].
-    split; [exact F1|]. split; [exact F2|].
+    destruct (Hfields (ProxyCore.ao_session o) id eq_refl) as [F1 [F2 [F5 [F3 F4]]]].
+    split; [exact F1|]. split; [exact F2|]. split; [exact F5|].
     split; [exact Hp|]. split; [exact Hred|]. split; [exact Hcl|]. split; [right; exact Hrt|].
     split; [|split; [exact F3 | exact F4]].
     right. destruct (ProxyCore_proofs.authenticate_sound lower _ _ _ _ _ _ Hauth) as [s [Hck Hok]].
@@ -589,6 +591,48 @@ Proof.
     + cbn [ProxyCore.r_cookie ProxyAll.pc_request] in Hck0. rewrite Hck in Hck0. inversion Hck0; subst s0.
       exists s, s'. split; [exact Hck|]. split; [exact Hok|]. split; [exact Hem|].
       split; [intros _; apply handler_identity_some | intros Hw'; congruence].
+Qed.
+
+
+(* ---- the signatures over the received request verify (C12, under its two guards) ---- *)
+Theorem backend_signature_verifies d q a now bv u :
+  oc_backend (serve d q a now) = Some bv -> oc_upstream (serve d q a now) = Some u ->
+  let rs := signer_request q (bk_handler bv) in
+  let c := sg_cfg re_replace d u (rq_host q) in
+  Signer.conn_safe Signer_gen_proofs.g_protected (Signer.r_headers rs) = true ->   (* guard 1: C03-K3 / C12-K1 *)
+  Signer.cl_canonical rs = true ->                                                (* guard 2: C12-K2 *)
+  Signer.canon_rsa Signer_gen_proofs.g_cov (bk_req bv) = Signer.canon_rsa Signer_gen_proofs.g_cov rs /\
+  Signer.canon_hmac Signer_gen_proofs.g_covh (bk_req bv) = Signer.canon_hmac Signer_gen_proofs.g_covh rs /\
+  Signer.r_body (bk_req bv) = Some (rq_body q) /\
+  (forall k, In k Signer_gen_proofs.g_cov ->
+     Signer.hvals k (Signer.r_headers (bk_req bv)) = ReqHeaders.h_get k (bk_handler bv)) /\
+  (up_skip_sign u = false -> forall sk, dp_signer d = Some sk ->
+     Signer.verify_rsa Signer_gen_proofs.g_cov (Signer.published_certs c) (bk_req bv) = Some true /\
+     Signer.r_kid (bk_req bv) = Some (Signer.KeyId (Signer.pub sk))) /\
+  (up_skip_sign u = false -> forall key, up_hmac u = Some key ->
+     Signer.verify_hmac Signer_gen_proofs.g_covh key (bk_req bv) = 3).
+Proof.
+  intros Hb Hu rs c Hconn Hclc.
+  destruct (backend_reached_only_if d q a now bv Hb) as [u' [_ [_ [Hu' [_ [_ [_ [Hreq [_ [_ [Hclean _]]]]]]]]]]].
+  rewrite Hu in Hu'. inversion Hu'; subst u'. clear Hu'.
+  assert (Hpre : has_prefix (rq_path q) [47] = true).
+  { destruct (ReqUri_proofs.clean_path_head (rq_path q)) as [H|[x [r [H _]]]]; rewrite Hclean in H; rewrite H; reflexivity. }
+  rewrite Hreq. unfold received_request. fold rs. fold c.
+  assert (Hbare : Signer.bare_target c = true) by reflexivity.
+  pose proof (gen_signed_is_received Signer_gen_proofs.g_cov Signer_gen_proofs.g_covh Signer_gen_proofs.g_protected
+                Signer_gen_proofs.g_cov_ok Signer_gen_proofs.g_covh_ok Signer_gen_proofs.g_sub1 Signer_gen_proofs.g_sub2
+                c (rq_ip q) rs (rq_body q) Hbare Hpre eq_refl eq_refl Hconn Hclc) as (E1&E2&E3&E4).
+  split; [exact E1|]. split; [exact E2|]. split; [exact E3|].
+  split; [intros k Hk; etransitivity; [exact (E4 k Hk) | apply to_signer_hvals]|].
+  split.
+  - intros Hskip sk Hsk.
+    apply (gen_rsa_verifies Signer_gen_proofs.g_cov Signer_gen_proofs.g_covh Signer_gen_proofs.g_protected
+             Signer_gen_proofs.g_cov_ok Signer_gen_proofs.g_covh_ok Signer_gen_proofs.g_sub1 Signer_gen_proofs.g_sub2
+             Signer_gen_proofs.g_sub3 c (rq_ip q) rs (rq_body q) Hbare Hpre eq_refl eq_refl Hconn Hclc sk); assumption.
+  - intros Hskip key Hkey.
+    apply (gen_hmac_verifies Signer_gen_proofs.g_cov Signer_gen_proofs.g_covh Signer_gen_proofs.g_protected
+             Signer_gen_proofs.g_cov_ok Signer_gen_proofs.g_covh_ok Signer_gen_proofs.g_sub1 Signer_gen_proofs.g_sub2
+             Signer_gen_proofs.g_sub3 c (rq_ip q) rs (rq_body q) Hbare Hpre eq_refl eq_refl Hconn Hclc key); assumption.
 Qed.
 
 End Composite.
